@@ -302,12 +302,16 @@ z3.RecAddDefinition(RangeSeq, [_lo, _hi], z3.If(_lo >= _hi, z3.Empty(VS), z3.Con
 
 # ------------------------------------------------------------------------------------------ dict access
 DictIdx = z3.RecFunction("DictIdx", VS, Val, I, I)  # index of the key == x among the first k keys, or -1
+DICTIDX_DEF = []
 
 
 def _def_dictidx():
     xs, x, k = z3.Const("xs", VS), z3.Const("x", Val), z3.Int("k")
-    z3.RecAddDefinition(DictIdx, [xs, x, k], z3.If(k <= 0, z3.IntVal(-1), z3.If(
-        DictIdx(xs, x, k - 1) >= 0, DictIdx(xs, x, k - 1), z3.If(eq_b(xs[k - 1], x), k - 1, z3.IntVal(-1)))))
+    body = z3.If(k <= 0, z3.IntVal(-1), z3.If(
+        DictIdx(xs, x, k - 1) >= 0, DictIdx(xs, x, k - 1), z3.If(eq_b(xs[k - 1], x), k - 1, z3.IntVal(-1))))
+    z3.RecAddDefinition(DictIdx, [xs, x, k], body)
+    DICTIDX_DEF.append(([xs, x, k], body))
+
 
 
 _def_dictidx()
